@@ -12,7 +12,12 @@ rows of those files, decide:
            replacement decisions
   both     one fill per distinct line <= fills <= one per read access; monotone in capacity (cache);
            traffic invariant under moving positions inside their line and under the order in which
-           the bindings of one call are listed (bindings of different element widths included)
+           the bindings of one call are listed (bindings of different element widths included); invariant under
+           the order in which the entries of the trace dictionary are written down (read entry of a binding before
+           or after its write entry)
+           cache, several bindings on ONE loop rank (e.g. the coordinates and the payloads of a fiber, driven by
+           the same trace): accesses of one stamp are served in the order of the listing; the simulator and the
+           exhaustive optimum are evaluated on exactly that access sequence
   filterTrace      = rows of the input whose point occurs (as a prefix) in the filter
   _combineTraces   = stable merge by iteration stamp (read first on ties)
   directory listing before/after every model call (temporary files removed), also when the trace dictionary
@@ -44,9 +49,14 @@ SPEC = {
              "run under the buffet for every legal evict-on and under the cache for capacities 0..unbounded, plus "
              "a re-run with positions moved inside their lines; (iii) random multi-binding runs (2-3 bindings, "
              "1-2 tensors, bindings on the same or on different loop ranks, one element width for all bindings or "
-             "one of 8/16/32/64 bits per binding, i.e. several elements-per-line values in one call), each run with "
+             "one of 8/16/32/64 bits per binding, i.e. several elements-per-line values in one call; in 60% of the cases "
+             "where two bindings name one (tensor, rank) - its coordinates and its payloads - one read trace drives both, "
+             "so their accesses share every stamp while their line streams differ with the widths), each run with "
              "the bindings (and the trace dictionary) listed in every order: every listing is judged by the same "
-             "reference models and must charge what the first listing did (buffet always; cache when the bindings "
+             "reference models (cache: simulator and, for short read-only runs, the exhaustive optimum over the access "
+             "sequence stamp by stamp, bindings of one loop rank in the order of the listing - also when several bindings "
+             "sit on one loop rank and their next uses fall on the same stamp) and must charge what the first listing did "
+             "(buffet always; cache when the bindings "
              "sit on different loop ranks), part of them re-run with positions moved inside their lines; (iv) real "
              "traces recorded by Metrics from Z_MN = A_MK * B_KN (Gustavson), incl. "
              "populate read/write traces with insertion shifts, multi-binding runs with per-binding element widths and "
@@ -60,7 +70,11 @@ SPEC = {
              "and 30% of the runs of (iv) the dictionary also holds 1-3 entries that no binding of the call names (the "
              "other type of a bound rank, another rank of a bound tensor, a tensor not bound at all and possibly "
              "traced one loop rank deeper than any binding; in (iv) the dictionary of the whole kernel), listed before "
-             "or after the bound ones: same oracles, nothing charged to them, same directory listing afterwards.  "
+             "or after the bound ones: same oracles, nothing charged to them, same directory listing afterwards.  The bound "
+             "entries are written down in one of four orders, rotating over the cases and the eviction settings of a case "
+             "(binding by binding with the read entry before / after the write entry; all write entries first; all read "
+             "entries first): same oracles; in every 3rd case with a read+write binding one buffet and one cache run is "
+             "repeated with read and write entries the other way round and must report the same.  "
              "Non-trivial = some line is touched at least twice (model cases) / the filter keeps "
              "and drops at least one row / both merged files hold rows; distinct = distinct case description."),
     "shards": {"quick": 16, "thorough": 16},
@@ -75,7 +89,10 @@ SPEC = {
                              "unbounded_as_float_inf": 6000, "unbounded_as_finite_number": 9000,
                              "float_capacity_calls": 15000, "unbounded_form_pairs": 1500,
                              "cases_with_unbound_trace_entries": 500, "calls_with_unbound_trace_entries": 6000,
-                             "kernel_whole_dictionary_runs": 150},
+                             "kernel_whole_dictionary_runs": 150,
+                             "write_entry_first_calls": 8000, "dictionary_order_pairs": 1500,
+                             "shared_trace_cases": 250, "same_rank_fnu_checked": 1500,
+                             "same_rank_optimum_checked": 250},
                    "thorough": {"evaluations": 100000, "oracle_evals": 4000000, "model_calls": 400000,
                                 "fnu_checked": 200000, "optimum_checked": 50000, "kernel_cases": 2000,
                                 "filter_calls": 8000, "combine_calls": 4000, "relisted_runs": 10000,
@@ -84,16 +101,23 @@ SPEC = {
                                 "unbounded_as_float_inf": 40000, "unbounded_as_finite_number": 60000,
                                 "float_capacity_calls": 100000, "unbounded_form_pairs": 10000,
                                 "cases_with_unbound_trace_entries": 5000, "calls_with_unbound_trace_entries": 60000,
-                                "kernel_whole_dictionary_runs": 1500}},
+                                "kernel_whole_dictionary_runs": 1500,
+                                "write_entry_first_calls": 60000, "dictionary_order_pairs": 10000,
+                                "shared_trace_cases": 2500, "same_rank_fnu_checked": 15000,
+                                "same_rank_optimum_checked": 2000}},
     "assumptions": [
         "well-formed trace file = header + rows whose iteration stamps strictly increase inside the file; a read "
         "row and a write row (different files) may share a stamp, the read is first",
         "coordinates in a row are a function of the stamp prefix (same iteration -> same coordinate)",
         "evict-on is root or a loop rank strictly outside the bound rank (the quantifier of the statement)",
         "cache: equality with the furthest-next-use simulator is demanded when next-use times are unambiguous: "
-        "no two different lines share a stamp in the merged read/write trace, bindings of one run sit on different "
-        "loop ranks, and no access addresses the staging area (the statement does not say how staging lines "
-        "occupy a cache); otherwise only bounds, capacity monotonicity and file clean-up are judged",
+        "no two different lines of ONE binding share a stamp in its merged read/write trace, the write-traced "
+        "bindings of a run agree on the extent of the rank, and no access addresses the staging area (the statement "
+        "does not say how staging lines occupy a cache); otherwise only bounds, capacity monotonicity and file "
+        "clean-up are judged",
+        "several bindings on one loop rank: accesses carrying the same stamp are served in the order the bindings "
+        "are listed, so the access sequence - and with it every next-use time - is still unambiguous; the simulator "
+        "(ties in next-use STAMP are no ties in next-use TIME) and the optimum are evaluated on that sequence",
         "optimality against exhaustive search is demanded for read-only runs only (with free write misses "
         "furthest-next-use is the stated policy but not provably optimal)",
         "filterTrace: points of the input strictly increase, full points of the filter strictly increase, the "
@@ -106,7 +130,8 @@ SPEC = {
         "differ; read and write rows of different lines on one stamp; staging lines beside another "
         "binding) so that one mechanism maps to one key; the class never excuses a violation",
         "the bindings of one call are a set and the trace files a mapping: the order of listing either is not an "
-        "input of the statement.  Buffet traffic is a sum over bindings, so it must be the same for every listing; "
+        "input of the statement; in particular a binding's read trace may be listed before or after its write "
+        "trace.  Buffet traffic is a sum over bindings, so it must be the same for every listing; "
         "the cache processes accesses in stamp order and breaks stamp ties between bindings of ONE loop rank by "
         "listing order, so equality across listings is demanded only when the bindings sit on different loop ranks",
         "every binding has its own elements-per-line = line size // its element width (the statement's "
@@ -405,11 +430,17 @@ def _rand_multi(rng):
         used.add((t, j, ty))
         bits = widths[b]
         epl = line_sz // bits
-        nlines = rng.randint(1, 4)
-        mode = rng.choice(["r", "r", "rw", "w"])
-        shape = rng.choice([0, 0, 8, 96]) + epl * nlines
-        reads, writes = _gen_binding_rows(rng, j + 1, rng.randint(1, 30), epl, nlines, shape, mode, rng.randint(1, 3),
-                                          staging=rng.choice([0, 0.3]) if mode != "r" else 0.0)
+        twin = next((p for p in bindings if p["tensor"] == t and p["rank"] == order[j] and p["reads"]), None)
+        if twin is not None and rng.random() < 0.6:
+            # the coordinates and the payloads of one rank walked together: one trace drives both bindings (same
+            # stamps, same positions; with different element widths the two line streams still differ)
+            shape, reads, writes = twin["_shape"], [list(r) for r in twin["reads"]], None
+        else:
+            nlines = rng.randint(1, 4)
+            mode = rng.choice(["r", "r", "rw", "w"])
+            shape = rng.choice([0, 0, 8, 96]) + epl * nlines
+            reads, writes = _gen_binding_rows(rng, j + 1, rng.randint(1, 30), epl, nlines, shape, mode, rng.randint(1, 3),
+                                              staging=rng.choice([0, 0.3]) if mode != "r" else 0.0)
         bindings.append({"tensor": t, "rank": order[j], "type": ty, "bits": bits, "n": j + 1,
                          "reads": reads, "writes": writes, "_shape": shape})
     for t in names:
@@ -734,12 +765,26 @@ def _prepare(case, tmp, files=None):
     return ctx
 
 
-def _trace_dict(ctx, place, xfirst):
-    """The trace dictionary of one call: the bound entries in the order of the listing, the entries no binding
-    names before or after them."""
-    bound = sorted(ctx["traces"].items(), key=lambda kv: place[ctx["owner"][kv[0]]])
+def _trace_dict(ctx, place, xfirst, dorder=0):
+    """The trace dictionary of one call: a mapping (tensor, rank, type, access) -> file.  The order in which a
+    mapping's entries are written down is not an input of the statement, so it rotates (`dorder`) over: binding by
+    binding in the order of the listing with the read entry before / after the write entry, all write entries
+    before all read entries, all read entries before all write entries.  The entries no binding names come before
+    or after the bound ones."""
+    mode = dorder % 4
+
+    def rank_of(kv):
+        own, wr = place[ctx["owner"][kv[0]]], kv[0][3] == "write"
+        return ((own, wr), (own, not wr), (not wr, own), (wr, own))[mode]
+    bound = sorted(ctx["traces"].items(), key=rank_of)
     extra = list(ctx["xtraces"].items())
     return dict(extra + bound if xfirst else bound + extra)
+
+
+def _write_entry_first(traces):
+    """Does the dictionary list the write trace of some (tensor, rank, type) before its read trace?"""
+    keys = list(traces)
+    return any(k[3] == "write" and k[:3] + ("read",) in keys[i + 1:] for i, k in enumerate(keys))
 
 
 def _settle_unbound(mon, which, got, ctx, tag):
@@ -879,6 +924,24 @@ def _unbounded_again(mon, which, fn, bindings, ctx, traces, line_sz, loop_ranks,
               f"have room for everything")
 
 
+def _dictionary_order_again(mon, which, fn, bindings, ctx, place, xfirst, dorder, cap_bits, line_sz, loop_ranks, first, tmp, tag):
+    """The trace dictionary is a mapping: the same call with the read and the write entries written down the other
+    way round (dorder ^ 1) must report what the first one did."""
+    alt = _trace_dict(ctx, place, xfirst, dorder ^ 1)
+    ok, res = _call(mon, which, lambda: fn(bindings, ctx["formats"], alt, cap_bits, line_sz, loop_ranks=loop_ranks),
+                    tmp, ctx["keep"])
+    mon.count("model_calls")
+    mon.count("dictionary_order_pairs")
+    if not ok:
+        mon.violation(f"{which}:raised:{type(res).__name__}:depends-on-trace-dictionary-order{tag}",
+                      f"{which} raised {type(res).__name__}: {res} with the trace dictionary listed {list(alt)} but "
+                      f"returned {first} with the same entries in another order")
+        return
+    again = (_settle_unbound(mon, which, res[0], ctx, tag), res[1])
+    mon.check(again == first, f"{which}:depends-on-trace-dictionary-order{tag}",
+              f"{which} reported {first} and, with the same trace dictionary listed {[k[2:] for k in alt]}, {again}")
+
+
 def _run_model_case(case, mon, tmp, files=None, tagx=""):
     line_sz = case["line_sz"]
     order = case["order"]
@@ -898,6 +961,12 @@ def _run_model_case(case, mon, tmp, files=None, tagx=""):
     capform = case.get("capform", 0)
     if ctx["xtraces"]:
         mon.count("cases_with_unbound_trace_entries")
+    # one trace driving several bindings of one rank (the coordinates and the payloads of a fiber are walked together)
+    shared = any(p["tensor"] == q["tensor"] and p["rank"] == q["rank"] and p["reads"] and p["reads"] == q["reads"]
+                 for k, p in enumerate(case["bindings"]) for q in case["bindings"][k + 1:])
+    if shared:
+        mon.count("shared_trace_cases")
+    rw_bound = any(b["reads"] is not None and b["writes"] is not None for b in case["bindings"])
 
     def loop_ranks():
         return dict(case["rename"]) if case.get("rename") else None
@@ -917,7 +986,17 @@ def _run_model_case(case, mon, tmp, files=None, tagx=""):
             return f"{which}:{kind}:{failure}{tag}{extra}"
 
         place = {i: k for k, i in enumerate(listing)}
-        traces = _trace_dict(ctx, place, (capform + lno) % 2)
+        xfirst = (capform + lno) % 2
+
+        def tdict(off):
+            """The trace dictionary of a call -> (dictionary, no. of the order its entries are written down in).  The
+            order rotates over the cases and over the eviction settings of one case; the runs that are compared with
+            each other (capacity sweep, re-listed bindings, other spelling of unbounded, positions moved inside their
+            lines) share one order, so that each of those comparisons varies one thing only."""
+            d = _trace_dict(ctx, place, xfirst, capform + off)
+            if rw_bound and _write_entry_first(d):
+                mon.count("write_entry_first_calls")
+            return d, capform + off
         out_of_loop_order = any(order.index(case["bindings"][x]["rank"]) > order.index(case["bindings"][y]["rank"])
                                 for x, y in zip(listing, listing[1:]))
         if lno:
@@ -928,7 +1007,7 @@ def _run_model_case(case, mon, tmp, files=None, tagx=""):
 
         # ------------------------------------------------------------ buffet
         if case.get("buffet"):
-            for evict in case["buffet"]["evict"]:
+            for eno, evict in enumerate(case["buffet"]["evict"]):
                 bindings = [dict(ctx["bind"][i], **{"evict-on": evict[i]}) for i in listing]
                 per = []
                 for b, f, e in zip(case["bindings"], facts, evict):
@@ -939,8 +1018,9 @@ def _run_model_case(case, mon, tmp, files=None, tagx=""):
                 for cap in (case["buffet"]["caps"] if full else case["buffet"]["caps"][-1:]):
                     cj = case["buffet"]["caps"].index(cap)
                     cap_bits, _ = _capacity(mon, cap, line_sz, inf_bits, capform + cj)
+                    tdn, dorder = tdict(eno)
                     ok, res = _call(mon, "buffetTraffic",
-                                    lambda: Traffic.buffetTraffic(bindings, ctx["formats"], dict(traces), cap_bits,
+                                    lambda: Traffic.buffetTraffic(bindings, ctx["formats"], dict(tdn), cap_bits,
                                                                   line_sz, loop_ranks=loop_ranks()), tmp, ctx["keep"])
                     mon.count("model_calls")
                     mon.count("buffet_calls")
@@ -956,8 +1036,8 @@ def _run_model_case(case, mon, tmp, files=None, tagx=""):
                     got, overflows = res
                     got = _settle_unbound(mon, "buffetTraffic", got, ctx, tag)
                     if full:
-                        results.append(("buffet", evict, cap, cap_bits, got))
-                        first_run[("buffet", tuple(evict), cap)] = got
+                        results.append(("buffet", evict, cap, cap_bits, dorder, got))
+                        first_run[("buffet", eno, cap)] = got
                     _bounds(mon, "buffetTraffic", keyfn, case, facts, got, line_sz)
                     for t in sorted(set(exp) | set(got)):
                         for access in ("read", "write"):
@@ -967,14 +1047,18 @@ def _run_model_case(case, mon, tmp, files=None, tagx=""):
                             mon.check(g == x, keyfn("buffetTraffic", kind, "count", stg),
                                       f"buffetTraffic evict-on {evict} capacity {cap_bits!r}: tensor {t} {access} = {g} bits, the "
                                       f"window rule gives {x} bits (line {line_sz} bits, bindings listed {listing})")
+                    if full and rw_bound and capform % 3 == 0 and cap == case["buffet"]["caps"][-1] \
+                            and evict is case["buffet"]["evict"][-1]:
+                        _dictionary_order_again(mon, "buffetTraffic", Traffic.buffetTraffic, bindings, ctx, place, xfirst,
+                                                dorder, cap_bits, line_sz, loop_ranks(), (got, overflows), tmp, tag)
                     if cap is None:
                         mon.check(overflows == 0, f"buffetTraffic:overflow-at-unbounded-capacity{tag}",
                                   f"buffetTraffic reported {overflows} overflows at capacity {cap_bits!r} bits, which has "
                                   f"room for every access")
                         if full and capform % 6 == 0:
-                            _unbounded_again(mon, "buffetTraffic", Traffic.buffetTraffic, bindings, ctx, traces, line_sz,
+                            _unbounded_again(mon, "buffetTraffic", Traffic.buffetTraffic, bindings, ctx, tdn, line_sz,
                                              loop_ranks(), inf_bits, capform + cj + 1, cap_bits, (got, overflows), tmp, tag)
-                    ref = first_run.get(("buffet", tuple(evict), cap))
+                    ref = first_run.get(("buffet", eno, cap))
                     if not full and ref is not None:
                         mon.count("listing_order_checked")
                         mon.check(got == ref, f"buffetTraffic:depends-on-binding-listing-order{tag}",
@@ -993,7 +1077,7 @@ def _run_model_case(case, mon, tmp, files=None, tagx=""):
                     seq.append((pad, slot, k, (i, line, is_w, wb)))
             seq.sort(key=lambda s: s[:3])
             seq = [s[3] for s in seq]
-            exact = not staging and not shift and not same_rank and not foreign
+            exact = not staging and not shift and not foreign
             read_only = all(b["writes"] is None for b in case["bindings"])
             prev = None
             caps = case["cache"]["caps"]
@@ -1005,8 +1089,9 @@ def _run_model_case(case, mon, tmp, files=None, tagx=""):
                 cap_bits, cap_lines = _capacity(mon, cap, line_sz, inf_bits, capform + cj, frac=case["cache"].get("frac"))
                 if cap_lines is None:
                     cap_lines = inf_bits // line_sz         # room for every access of the run
+                tdn, dorder = tdict(0)
                 ok, res = _call(mon, "cacheTraffic",
-                                lambda: Traffic.cacheTraffic(bindings, ctx["formats"], dict(traces), cap_bits,
+                                lambda: Traffic.cacheTraffic(bindings, ctx["formats"], dict(tdn), cap_bits,
                                                              line_sz, loop_ranks=loop_ranks()), tmp, ctx["keep"])
                 mon.count("model_calls")
                 mon.count("cache_calls")
@@ -1032,7 +1117,7 @@ def _run_model_case(case, mon, tmp, files=None, tagx=""):
                 got, overflows = res
                 got = _settle_unbound(mon, "cacheTraffic", got, ctx, tag)
                 if full:
-                    results.append(("cache", cap_lines if cap is not None else None, cap_bits, got))
+                    results.append(("cache", cap_lines if cap is not None else None, cap_bits, dorder, got))
                     first_run[("cache", cap)] = got
                 _bounds(mon, "cacheTraffic", keyfn, case, facts, got, line_sz)
                 if exact:
@@ -1040,6 +1125,8 @@ def _run_model_case(case, mon, tmp, files=None, tagx=""):
                     per = [(fills.get(i, 0), wbs.get(i, 0)) for i in range(nb)]
                     exp = _expected_dict(case, per, line_sz)
                     mon.count("fnu_checked")
+                    if same_rank:
+                        mon.count("same_rank_fnu_checked")
                     for t in sorted(set(exp) | set(got)):
                         for access in ("read", "write"):
                             g, x = got.get(t, {}).get(access), exp.get(t, {}).get(access)
@@ -1048,19 +1135,24 @@ def _run_model_case(case, mon, tmp, files=None, tagx=""):
                                       f"cacheTraffic capacity {cap_bits!r} bits = {cap_lines} lines: tensor {t} {access} = {g} bits, "
                                       f"furthest-next-use with bypass gives {x} bits (line {line_sz} bits, bindings "
                                       f"listed {listing})")
-                if read_only and not shift and len(seq) <= 12 and len({s[:2] for s in seq}) <= 5 and not same_rank:
+                if read_only and not shift and len(seq) <= 12 and len({s[:2] for s in seq}) <= 5:
                     best = _optimum([s[:2] for s in seq], cap_lines)
                     total = sum(d.get("read", 0) for d in got.values())
                     mon.count("optimum_checked")
+                    if same_rank:
+                        mon.count("same_rank_optimum_checked")
                     mon.check(total == best * line_sz, f"cacheTraffic:fills:not-optimal{tag}",
                               f"cacheTraffic capacity {cap_bits!r} bits = {cap_lines} lines charged {total} bits of fills; the optimum over all "
                               f"replacement decisions is {best} fills x {line_sz} (bindings listed {listing})")
+                if full and rw_bound and capform % 3 == 0 and cj == 1:
+                    _dictionary_order_again(mon, "cacheTraffic", Traffic.cacheTraffic, bindings, ctx, place, xfirst,
+                                            dorder, cap_bits, line_sz, loop_ranks(), (got, overflows), tmp, tag)
                 if cap is None:
                     mon.check(overflows == 0, f"cacheTraffic:overflow-at-unbounded-capacity{tag}",
                               f"cacheTraffic reported {overflows} overflows at capacity {cap_bits!r} bits, which has room "
                               f"for every line")
                     if full and capform % 6 == 0:
-                        _unbounded_again(mon, "cacheTraffic", Traffic.cacheTraffic, bindings, ctx, traces, line_sz,
+                        _unbounded_again(mon, "cacheTraffic", Traffic.cacheTraffic, bindings, ctx, tdn, line_sz,
                                          loop_ranks(), inf_bits, capform + cj + 1, cap_bits, (got, overflows), tmp, tag)
                 if prev is not None and not staging and not shift and not foreign:
                     for t in got:
@@ -1108,7 +1200,7 @@ def _run_model_case(case, mon, tmp, files=None, tagx=""):
                     bindings = [dict(b, **{"evict-on": e}) for b, e in zip(ctx2["bind"], r[1])]
                     cap_bits = r[3]
                     ok, res = _call(mon, "buffetTraffic",
-                                    lambda: Traffic.buffetTraffic(bindings, ctx2["formats"], _trace_dict(ctx2, ident, k % 2),
+                                    lambda: Traffic.buffetTraffic(bindings, ctx2["formats"], _trace_dict(ctx2, ident, k % 2, r[-2]),
                                                                   cap_bits, line_sz, loop_ranks=loop_ranks()),
                                     sub, ctx2["keep"])
                 else:
@@ -1119,7 +1211,7 @@ def _run_model_case(case, mon, tmp, files=None, tagx=""):
                     cap_bits = r[2]
                     ok, res = _call(mon, "cacheTraffic",
                                     lambda: Traffic.cacheTraffic([dict(b) for b in ctx2["bind"]], ctx2["formats"],
-                                                                 _trace_dict(ctx2, ident, k % 2), cap_bits, line_sz,
+                                                                 _trace_dict(ctx2, ident, k % 2, r[-2]), cap_bits, line_sz,
                                                                  loop_ranks=loop_ranks()), sub, ctx2["keep"])
                 mon.count("model_calls")
                 mon.count("lineperm_checked")
